@@ -4,7 +4,7 @@
 (*   [decl |-> sequence of [name, hasDef, def], e]   declared parameters (global ones by name, or inline) *)
 (* Expressions: [k |-> "t", s] terminal; [k |-> "ref", n, args |-> sequence of [name, v, from]] with       *)
 (*   v \in {"true", "false", "from"}; "seq"/"alt"/"opt"/"list" as in Sugar; [k |-> "cond", pred, sub]      *)
-(*   (a predicate guards a whole alternative).  Predicates: [k |-> "p"|"not"|"eq"|"ne", name, v],          *)
+(*   (a predicate guards a whole alternative); [k |-> "eps"] is the empty alternative (%empty).  Predicates: [k |-> "p"|"not"|"eq"|"ne", name, v],          *)
 (*   [k |-> "and"|"or", sub].                                                                              *)
 (* An instance is <<n, S>>: nonterminal n with exactly the parameters named in S true.                   *)
 (* Parameter passing at a reference to T inside M (values S):                                             *)
@@ -46,7 +46,7 @@ RefEnv(src, M, S, r, entry) ==
 (* a declared parameter that gets no value: rejected as 'uninitialized parameters' *)
 RECURSIVE RefsIn(_)
 RefsIn(e) == CASE e.k = "ref" -> {e}
-               [] e.k = "t" -> {}
+               [] e.k \in {"t", "eps"} -> {}
                [] OTHER -> UNION { RefsIn(e.sub[i]) : i \in 1..Len(e.sub) }
 Uninitialized(src) ==
   \E M \in 0..(Len(src.nts) - 1) : \E r \in RefsIn(NT(src, M).e) : \E x \in DeclNames(src, r.n) :
@@ -62,18 +62,19 @@ Uninitialized(src) ==
 (* reaches an input.                                                                                                *)
 NTs(src) == 0..(Len(src.nts) - 1)
 RECURSIVE EntryRefsOf(_), CompatOf(_), PredNames(_), UsesOf(_, _)
-EntryRefsOf(e) == CASE e.k = "t" -> {}
+EntryRefsOf(e) == CASE e.k \in {"t", "eps"} -> {}
                     [] e.k = "ref" -> {e}
                     [] e.k = "alt" -> UNION { EntryRefsOf(e.sub[i]) : i \in 1..Len(e.sub) }
                     [] OTHER -> EntryRefsOf(e.sub[1])            \* seq: its first element; opt, list, cond: the content
 CompatOf(e) == CASE e.k \in {"t", "ref"} -> TRUE
+                 [] e.k = "eps" -> FALSE
                  [] e.k = "alt" -> \A i \in 1..Len(e.sub) : CompatOf(e.sub[i])
                  [] e.k = "opt" -> FALSE
                  [] e.k = "list" -> e.plus /\ CompatOf(e.sub[1])
                  [] OTHER -> CompatOf(e.sub[1])
 PredNames(p) == IF p.k \in {"and", "or"} THEN UNION { PredNames(p.sub[i]) : i \in 1..Len(p.sub) } ELSE {p.name}
 UsesOf(src, e) ==        \* lookahead flags tested in predicates or forwarded as argument values, anywhere in e
-  CASE e.k = "t" -> {}
+  CASE e.k \in {"t", "eps"} -> {}
     [] e.k = "ref" -> { e.args[i].from : i \in { i \in 1..Len(e.args) : e.args[i].v = "from" } } \cap LANames(src)
     [] e.k = "cond" -> (PredNames(e.pred) \cap LANames(src)) \cup UsesOf(src, e.sub[1])
     [] OTHER -> UNION { UsesOf(src, e.sub[i]) : i \in 1..Len(e.sub) }
@@ -101,6 +102,7 @@ Live(e, S) == { i \in 1..Len(e.sub) : e.sub[i].k # "cond" \/ PredT(e.sub[i].pred
 RECURSIVE DenT(_, _, _, _, _, _, _)
 DenT(src, e, M, S, entry, D, L) ==
   CASE e.k = "t" -> IF L >= 1 THEN { <<e.s>> } ELSE {}
+    [] e.k = "eps" -> { <<>> }
     [] e.k = "ref" -> D[<<e.n, Norm(src, e.n, RefEnv(src, M, S, e, entry))>>]
     [] e.k = "seq" -> LET RECURSIVE Sq(_)
                           Sq(i) == IF i > Len(e.sub) THEN { <<>> }
